@@ -7,6 +7,9 @@
    CLS 4 logic    f (rp, up, vp, n)                         twin mpn_<op>_n, SUB 0..7 = and andn nand ior iorn nior xor xnor
    CLS 5 sumdiff  c = f (rp1, rp2, up, vp, n)               twin mpn_sumdiff_n / mpn_nsumdiff_n (SUB 0/1)
    CLS 6 shift    c = f (rp, up, n, cnt)                    twin mpn_lshift / mpn_rshift (SUB 0/1), cnt symbolic 1..63
+   CLS 7 shift1   c = f (rp, up, n)                         twin mpn_lshift / mpn_rshift with count 1 (SUB 0/1: what gmp-impl.h defines mpn_lshift1 / mpn_rshift1 as
+                                                            when no native kernel exists)   OVL 0 separate, 1 rp==up
+   CLS 8 aors3    c = f (rp, xp, yp, zp, n)                 twin mpn_addadd_n / mpn_addsub_n / mpn_subadd_n (SUB 0/1/2)   OVL 0 separate, 1 rp==xp, 2 rp==yp, 3 rp==zp
    In the native replay the *real* kernel (assembled by yasm from the same file, symbols renamed to vkreal) runs instead of the
    translation. */
 #include "vh.h"
@@ -79,6 +82,17 @@ VF_MAIN_BEGIN
     kret = KCALL (KADDR (o_r), KADDR (o_u), N, cnt, 0);
     tret = SUB ? mpn_rshift (vx + o_r, vx + o_u, N, cnt) : mpn_lshift (vx + o_r, vx + o_u, N, cnt);
     CHECK (kret == tret, "kernel returns the same out-shifted bits as the portable C routine"); }
+#elif CLS == 7
+  o_r = P0; o_u = OVL == 1 ? o_r : P0 + N + 3; rlen = N;
+  kret = KCALL (KADDR (o_r), KADDR (o_u), N, 0, 0);
+  tret = SUB ? mpn_rshift (vx + o_r, vx + o_u, N, 1) : mpn_lshift (vx + o_r, vx + o_u, N, 1);
+  CHECK (kret == tret, "kernel returns the same out-shifted bit as the portable C routine");
+#elif CLS == 8
+  { int o_w; o_r = P0; o_u = OVL == 1 ? o_r : P0 + N + 3; o_v = OVL == 2 ? o_r : P0 + 2 * N + 6; o_w = OVL == 3 ? o_r : P0 + 3 * N + 9; rlen = N;
+    kret = KCALL (KADDR (o_r), KADDR (o_u), KADDR (o_v), KADDR (o_w), N);
+    if (SUB == 0) { tret = mpn_addadd_n (vx + o_r, vx + o_u, vx + o_v, vx + o_w, N); CHECK (kret == tret, "kernel returns the same carry as the portable C routine"); }
+    else if (SUB == 1) { int t = mpn_addsub_n (vx + o_r, vx + o_u, vx + o_v, vx + o_w, N); CHECK ((int) kret == t, "kernel returns the same carry/borrow as the portable C routine"); }
+    else { tret = mpn_subadd_n (vx + o_r, vx + o_u, vx + o_v, vx + o_w, N); CHECK (kret == tret, "kernel returns the same borrow as the portable C routine"); } }
 #endif
   for (i = 0; i < VK_WORDS - 72; i++)
     { int in_r = (i >= o_r && i < o_r + rlen) || (o_r2 >= 0 && i >= o_r2 && i < o_r2 + r2len);
